@@ -174,4 +174,15 @@ theorem evB_agree {P : Prog} {L : Binds} {D : List String} {ρ ρ' ρ1 : Env} {w
   rw [evB_lookup h x hx.2]
   exact ha x hx.1
 
+/-- a result that is the "no rule" failure -/
+def Stuck {α} : Res α → Prop
+  | .fail (.stuck _) _ => True
+  | _ => False
+
+@[simp] theorem Stuck_ok {α} (a : α) (w : World) : Stuck (Res.ok a w) = False := rfl
+@[simp] theorem Stuck_stuck {α} (s : String) (w : World) : Stuck (Res.fail (α := α) (.stuck s) w) = True := rfl
+theorem Stuck_fail_iff {α β} (f : Fail) (w w' : World) :
+    Stuck (Res.fail (α := α) f w) ↔ Stuck (Res.fail (α := β) f w') := by
+  cases f <;> simp [Stuck]
+
 end Goml.Anf
